@@ -83,7 +83,10 @@ def run_cases(binary, work, cases, paths=("run", "exec"), tlc_workers=12, tlc_ti
         c["src"], c["obs"], c["rejected"] = src, obs, rej
         c["expect"] = expect_pos(src)
         return c
+    import time
+    t0 = time.time()
     C.pmap(one, cases)
+    C.log(f"[l1] executed {len(cases)} programs x {len(paths)} paths in {time.time()-t0:.1f}s")
     shutil.rmtree(root, ignore_errors=True)
     judged = [c for c in cases if not c["rejected"]]
     dis, skips = [], []
@@ -99,6 +102,7 @@ def run_cases(binary, work, cases, paths=("run", "exec"), tlc_workers=12, tlc_ti
             raise C.ToolError(f"CheckLang: {r.error or r.invariant_violated}")
         if r.distinct != len(part):
             raise C.ToolError(f"CheckLang evaluated {r.distinct} of {len(part)} cases")
+        C.log(f"[l1] TLC judged {len(part)} cases in {r.wall:.1f}s")
         dis += r.prints.get("DISAGREE", [])
         skips += r.prints.get("SKIP", [])
         states += r.distinct
